@@ -98,6 +98,24 @@ def prepare(repo="/repo", tag="s", files=None):
     return dst, missing, lost
 
 
+def gen_language_bogus(dst):
+    """BOGUS[i] = "<tag of LANGUAGES[i]>-QQ", generated from the scratch copy's table"""
+    p = os.path.join(dst, "src/internal/language.rs")
+    out = os.path.join(dst, "gen_language_bogus.rs")
+    tags = []
+    if os.path.exists(p):
+        s = open(p).read()
+        a = s.find("const LANGUAGES")
+        b = s.find("\n];", a)
+        if a >= 0 and b >= 0:
+            body = s[a:b]
+            # top-level entries: `(0x01, "ar", &[` possibly spread over lines
+            for m in re.finditer(r"\(\s*0x[0-9a-fA-F]+,\s*\"([A-Za-z]+)\",\s*&\[", body):
+                tags.append(m.group(1))
+    with open(out, "w") as f:
+        f.write("pub const BOGUS: &[&str] = &[%s];\n" % ", ".join('"%s-QQ"' % t for t in tags))
+
+
 def cleanup(dst):
     shutil.rmtree(dst, ignore_errors=True)
 
